@@ -6,12 +6,24 @@ from typing import Any
 
 
 def ids(group: str) -> list[str]:
+    if group == "c16var":
+        import ast, os
+
+        src = open(os.path.join(os.path.dirname(__file__), "variants.py")).read()
+        names = []
+        for node in ast.walk(ast.parse(src)):
+            if isinstance(node, ast.AnnAssign) and getattr(node.target, "id", "") == "ENTRIES" and isinstance(node.value, ast.Dict):
+                names = [k.value for k in node.value.keys if isinstance(k, ast.Constant)]
+        return [f"fx::{group}::{n}" for n in sorted(names)]
     mod = importlib.import_module("sim.fixtures._index")
     return [f"fx::{group}::{n}" for n in mod.INDEX.get(group, [])]
 
 
 def build(pid: str) -> Any:
     _, group, name = pid.split("::", 2)
+    if group == "c16var":
+        mod = importlib.import_module("sim.fixtures.variants")
+        return mod.build(group, name)
     if group == "c16cat":
         mod = importlib.import_module("sim.fixtures.catalogue")
         return mod.build(group, name)
